@@ -29,6 +29,11 @@ def define():
         for S in (0, sz - 1, sz, sz + 1, 2 * sz, 3 * sz - 1):
             stack_cap(S, elem, tier="quick" if S in (sz - 1, 2 * sz) else "rot3")
     stack_cap(0, "Z0D")
+    # power-of-two element sizes larger than their alignment
+    stack_cap(7, "F4")
+    stack_cap(8, "F4", tier="rot3")
+    stack_cap(23, "P8D")
+    stack_cap(16, "P8D", tier="rot3")
     stack_cap(7, "Z0")
     stack_cap(513, "D24D", tier="rot2")
     for (N, S, elem) in ((2, 6, "B3D"), (2, 5, "B3D"), (0, 0, "W8"), (1, 7, "W8"), (3, 24, "W8D"), (4, 0, "Z0D"), (1, 160, "L160D"), (2, 319, "L160D")):
